@@ -64,7 +64,7 @@ def gen_cfg(prop, rng, tier, kind=None):
             cfg["delay_form"] = "constant"   # an ill-formed call may consume a draw; not a store side effect
         cfg["const_delay"] = rng.choice(lat)
     if kind in ("fls", "flt"):
-        cfg["delay"] = rng.choice(pos + [1, 2] + ([0] if prop in ("C14", "C20") else []))
+        cfg["delay"] = rng.choice(pos + [1, 2] + ([0] if prop in ("C14", "C20") or rng.random() < 0.3 else []))
         cfg["transit"] = rng.choice(lat + [0, 0.5])
     if kind == "cconv":
         cfg["item_length"] = rng.choice([1, 1, 2, 3])
